@@ -172,13 +172,21 @@ func (tc *testConn) quiesce() bool {
 	return ok
 }
 
-func (tc *testConn) waitIdle() bool {
+// idleButBlocked: nothing in flight and no control frame queued; DATA frames may sit in stream
+// queues waiting for flow-control window.
+func idleButBlocked(s bfe_http2.VerifSnapshot) bool {
+	return s.Valid && !s.WritingFrame && !s.NeedSettingsAck && !s.NeedGoAway && !s.NeedsFlush && s.ZeroQueueLen == 0
+}
+
+func (tc *testConn) waitIdle() bool { return tc.waitIdleP(false) }
+
+func (tc *testConn) waitIdleP(allowBlockedData bool) bool {
 	for i := 0; i < 30000; i++ {
 		s, alive := tc.vc.OnServe()
 		if !alive {
 			return false
 		}
-		if s.Idle() {
+		if s.Idle() || (allowBlockedData && idleButBlocked(s)) {
 			return true
 		}
 		if i < 100 {
@@ -194,16 +202,21 @@ func (tc *testConn) waitIdle() bool {
 // nothing but the two acknowledgements in between (the second round trip also
 // guarantees that the reader goroutine has delivered everything written
 // before it).
-func (tc *testConn) quiesce1() bool {
+func (tc *testConn) quiesce1() bool { return tc.quiesceP(false) }
+
+// quiesceBlocked is quiesce for a server that may hold DATA it cannot send for lack of window.
+func (tc *testConn) quiesceBlocked() bool { return tc.quiesceP(true) }
+
+func (tc *testConn) quiesceP(allowBlockedData bool) bool {
 	for attempt := 0; attempt < 200; attempt++ {
-		if !tc.waitIdle() {
+		if !tc.waitIdleP(allowBlockedData) {
 			return false
 		}
 		n0 := tc.cli.NumEvents()
 		if _, err := tc.cli.Sync(); err != nil {
 			return false
 		}
-		if !tc.waitIdle() {
+		if !tc.waitIdleP(allowBlockedData) {
 			return false
 		}
 		if _, err := tc.cli.Sync(); err != nil {
